@@ -306,7 +306,7 @@ def check_inv(ex, st, srcs_by_band, problems, where, require_format=True):
         nums = sorted(hunks)
         if require_format and nums != list(range(len(nums))):
             problems.append('%s: band b%04d hunk numbers %s are not 0..n-1' % (where, b, nums))
-        if info['tail']:
+        if info['tail'] and not info.get('tail_empty'):
             tc = info['tail_count']
             if tc is None or (isinstance(tc, int) and tc != len(nums)) or (not isinstance(tc, int) and ex.check_holds(eq(tc, len(nums)))[0] is False):
                 problems.append('%s: band b%04d tail says %s hunks, %d present' % (where, b, tc, len(nums)))
@@ -315,6 +315,9 @@ def check_inv(ex, st, srcs_by_band, problems, where, require_format=True):
         for n in nums:
             ents = hunks[n]
             if ents is None:
+                # the zero-length leftover of a killed write is a legal state for the last hunk of an unfinished band
+                if n in info.get('empty_hunks', ()) and n == nums[-1] and not info['tail']:
+                    continue
                 problems.append('%s: band b%04d hunk %d is not decodable' % (where, b, n))
                 continue
             if require_format and len(ents) == 0:
@@ -379,21 +382,26 @@ def apath_lt(a, b):
 PATHS = ['/a', '/b', '/c', '/d', '/e']
 
 
-def make_tree(ex, kinds, classes, label='t', sizes=None, B=None, sym_meta=False):
+def make_tree(ex, kinds, classes, label='t', sizes=None, B=None, sym_meta=False, paths=None):
     """Root dir + one entry per letter of `kinds` (F file, D dir, S symlink, U unknown); file i has content class
     classes[i]; equal classes share size and content."""
-    tm = (lambda l, i: sym_time(ex, l)) if sym_meta else (lambda l, i: TimeV(1000 + i, 500 * i))
+    # a different tree state (label) gets different mtimes: content never changes behind an unchanged (mtime, size)
+    base = 1000 if label == 't' else 2000
+    tm = (lambda l, i: sym_time(ex, l)) if sym_meta else (lambda l, i: TimeV(base + i, 500 * i))
     files = [SrcFile('/', 'Dir', mtime=tm(label + 'root', 9), mode=sym_mode(ex, label + 'rootmode'))]
     class_size = {}
     for i, k in enumerate(kinds):
-        p = PATHS[i]
+        p = (paths or PATHS)[i]
         mt = tm('%smt%d' % (label, i), i)
         if k == 'F':
             c = classes[i]
             if c not in class_size:
-                sz = ex.fresh_int('%ssize%d' % (label, i), 0, None)
-                if B is not None:
-                    ex.assume(sz <= 3 * B)
+                if sizes is not None:
+                    sz = sizes[i]
+                else:
+                    sz = ex.fresh_int('%ssize%d' % (label, i), 0, None)
+                    if B is not None:
+                        ex.assume(sz <= 3 * B)
                 class_size[c] = sz
             files.append(SrcFile(p, 'File', cls=c, size=class_size[c], mtime=mt, mode=sym_mode(ex, '%smode%d' % (label, i)),
                                  user='u', group=None))
@@ -494,12 +502,33 @@ def make_case(prog, case):
         def h(ex):
             pol = StepPolicy(mode)
             st, ar = A.new_archive(ex, pol)
+            ex.env['policy'], ex.env['store'] = pol, st
             st.mode = 'run'
-            B, C, H = sym_options(ex)
-            tree = make_tree(ex, kinds, classes, B=B, sym_meta=case.get('sym_meta', False))
+            B, C, H = case['fixed_opts'] if case.get('fixed_opts') else sym_options(ex)
+            tree = make_tree(ex, kinds, classes, B=B, sym_meta=case.get('sym_meta', False), paths=case.get('paths'),
+                             sizes=case.get('sizes'))
             srcs = {0: {f.path: f for f in tree.files}}
             new_band = 0
-            if case.get('prior'):
+            if case.get('prior') == 'built':
+                # an earlier complete version written directly in the documented format (one block per file)
+                t0 = make_tree(ex, case['prior_kinds'], case['prior_classes'], 'p', B=B)
+                st.mode = 'pre'
+                A.put_head(ex, st, 0)
+                ents = []
+                for i, f in enumerate(t0.files):
+                    addrs = []
+                    if f.kind == 'File':
+                        ex.assume(f.size >= 1)
+                        hsh = A.put_block(ex, st, Data([(f.cls, 0, f.size)]))
+                        addrs = [A.mk_addr(ex, hsh, 0, f.size)]
+                    ents.append(A.mk_entry(ex, f.path, f.kind, f.mtime.sec, addrs=addrs, target=f.target, nanos=f.mtime.nanos,
+                                           mode=f.mode, owner=A.mk_owner(ex, f.user, f.group)))
+                A.put_hunk(ex, st, 0, 0, ents)
+                A.put_tail(ex, st, 0, 1)
+                st.mode = 'run'
+                srcs = {0: {f.path: f for f in t0.files}, 1: {f.path: f for f in tree.files}}
+                new_band = 1
+            elif case.get('prior'):
                 # a fault-free earlier backup of a (possibly different) tree gives history and a basis
                 t0 = tree if case['prior'] == 'same' else make_tree(ex, case['prior_kinds'], case['prior_classes'], 'p', B=B)
                 o0 = backup_options(ex, H, B, C, case.get('owner', True))
@@ -530,8 +559,10 @@ def make_case(prog, case):
             res['outcomes'] += 1
             if out[0] == 'panic':
                 r0, m = ex.E.check()
+                pol, st = ex.env.get('policy'), ex.env.get('store')
                 res['bad'].append({'kind': 'panic', 'msg': str(out[1])[:300], 'where': out[1].where, 'case': case,
-                                   'model': model_values(m)})
+                                   'model': model_values(m), 'fired': pol.fired if pol else None,
+                                   'log': [(i, v, p) for i, a, v, p, act in st.log] if st else []})
                 return
             if out[0] != 'ok':
                 return
@@ -582,6 +613,8 @@ def check_backup_outcome(ex, d, case):
     check_inv(ex, st, srcs, problems, where)
     nb = d['new_band']
     if crashed:
+        if case.get('follow_up', True):
+            follow_up(ex, d, case, problems, where)
         return problems
     mon = ex.env['monitor']
     if r[0] == 'ok':
@@ -591,6 +624,28 @@ def check_backup_outcome(ex, d, case):
             problems.append('%s: backup reports errors=%s monitor_errors=%d' % (where, errors, len(mon.errors)))
         if clean:
             check_complete_band(ex, st, nb, tree, problems, where, case.get('owner', True))
+        if clean and case.get('expect_no_block_writes'):
+            for (i, a, v, p, act) in st.log[d['log0']:]:
+                if v == 'write' and p.startswith('d/'):
+                    problems.append('%s: backing up an unchanged tree wrote block %s again' % (where, p[-12:]))
+            bands, blocks = decode_bands(ex, st)
+
+            def addrs_of(b):
+                out = {}
+                for hn in sorted(bands[b]['hunks']):
+                    for e in bands[b]['hunks'][hn] or []:
+                        ef = entry_fields(ex, e)
+                        out[ef['apath']] = [(field(ex, a_, 'blockdir::Address', 'hash').hid, field(ex, a_, 'blockdir::Address', 'start'),
+                                             field(ex, a_, 'blockdir::Address', 'len')) for a_ in ef['addrs']]
+                return out
+            if nb - 1 in bands and nb in bands:
+                a0, a1 = addrs_of(nb - 1), addrs_of(nb)
+                for pth, l1 in a1.items():
+                    l0 = a0.get(pth)
+                    same = l0 is not None and len(l0) == len(l1) and all(
+                        x[0] == y[0] and ex.check_holds(b_and(eq(x[1], y[1]), eq(x[2], y[2])))[0] for x, y in zip(l0, l1))
+                    if not same:
+                        problems.append('%s: unchanged file %s recorded with different addresses than in the previous version' % (where, pth))
         else:
             # something was skipped: it must have been reported (it was) and the band must still be closed & consistent
             pass
@@ -598,3 +653,104 @@ def check_backup_outcome(ex, d, case):
         if not pol.fired:
             problems.append('%s: backup failed without any injected fault: %s' % (where, variant_name(ex, r[1])))
     return problems
+
+
+# ============================================================================ follow-up phase (C03 usability, C14 resume)
+def expected_stitch(ex, st, n):
+    """Stitching rule on the decoded store (concrete paths), written from the property statement."""
+    bands, blocks = decode_bands(ex, st)
+    out = []
+    last = None
+    b = n
+    while True:
+        info = bands.get(b)
+        if info and info.get('head_present') and info['head']:
+            flat = []
+            for hn in sorted(info['hunks']):
+                flat += [entry_fields(ex, e) for e in (info['hunks'][hn] or [])]
+            for ef in flat:
+                if last is None or apath_lt(last, ef['apath']):
+                    out.append((b, ef['apath']))
+            if flat:
+                m = flat[-1]['apath']
+                if last is None or apath_lt(last, m):
+                    last = m
+            if info['tail']:
+                break
+        nb = None
+        for cand in range(b - 1, -1, -1):
+            ci = bands.get(cand)
+            if ci and ci.get('head_present'):
+                nb = cand
+                break
+        if nb is None:
+            break
+        b = nb
+    return out
+
+
+def real_stitch(ex, ar, n, limit=60):
+    new = A.fn_by(ex.prog, 'Stitch', None, 'new')
+    nxt = A.fn_by(ex.prog, 'Stitch', None, 'next')
+    stitch = ex.call_fn(new, [Ref([ar], 0), Agg('bandid::BandId', None, [n]), A.apath_of('/'), A.exclude_nothing(ex),
+                              A.monitor_arc(ex)])
+    cell = [stitch]
+    got = []
+    for _ in range(limit):
+        r = A.run_async(ex, nxt, [Ref(cell, 0, True)])
+        if r.variant == 0:
+            return got
+        e = r.fields[0]
+        got.append(entry_fields(ex, e))
+    raise Panic('listing does not terminate')
+
+
+def follow_up(ex, d, case, problems, where):
+    """After an interrupted or faulted backup: every version still lists per the stitching rule (no panic), and a new
+    backup of the same source completes, is exact, and does not rewrite blocks that are already stored."""
+    st, ar, tree = d['st'], d['ar'], d['tree']
+    bands, blocks = decode_bands(ex, st)
+    for b in sorted(bands):
+        # a zero-length BANDHEAD (killed write) is not a version yet: "once its header exists"
+        if not bands[b].get('head'):
+            continue
+        ex.env['monitor'].errors.clear()
+        try:
+            got = real_stitch(ex, ar, b)
+        except Panic as p:
+            problems.append('%s: listing band b%04d panics: %s' % (where, b, str(p)[:200]))
+            continue
+        want = expected_stitch(ex, st, b)
+        gp = [g['apath'] for g in got]
+        if ex.env['monitor'].errors:
+            problems.append('%s: listing band b%04d reports errors: %s' % (where, b, [variant_name(ex, e) for e in ex.env['monitor'].errors][:3]))
+        if gp != [p for _, p in want]:
+            problems.append('%s: listing band b%04d gives %s, stitching rule gives %s' % (where, b, gp, want))
+    ex.env['monitor'].errors.clear()
+    nviol = len(st.violations)
+    pre = st.snapshot()
+    B, C, H = d['opts']
+    opts = backup_options(ex, H, B, C, case.get('owner', True))
+    try:
+        r = run_backup(ex, ar, tree, opts)
+    except Panic as p:
+        problems.append('%s: the follow-up backup panics: %s' % (where, str(p)[:200]))
+        return
+    if r[0] != 'ok':
+        problems.append('%s: the follow-up backup fails: %s' % (where, variant_name(ex, r[1])))
+        return
+    if stats_field(ex, r[1], 'errors') != 0:
+        problems.append('%s: the follow-up backup counts errors' % where)
+    nb = max(decode_bands(ex, st)[0])
+    check_complete_band(ex, st, nb, tree, problems, where + ' follow-up')
+    check_inv(ex, st, {nb: {f.path: f for f in tree.files}}, problems, where + ' follow-up')
+    for v in st.violations[nviol:]:
+        problems.append('%s follow-up: step %d %s %s: %s' % (where, v[0], v[1], v[2], v[3]))
+    for p, (k, pl) in pre.items():
+        n = st.nodes.get(p)
+        if n is None:
+            problems.append('%s follow-up: %s existed and is gone' % (where, p))
+        elif n.kind == 'file' and n.payload is not pl and not (isinstance(pl, Raw) and len(pl.data) == 0):
+            problems.append('%s follow-up: %s existed and was rewritten' % (where, p))
+    written_again = stats_field(ex, r[1], 'written_blocks')
+    d['followup_written_blocks'] = written_again
